@@ -362,6 +362,7 @@ class BaseFullCache(BaseCache):
 
             return self._read_input_output_data(indices, input_data)
 
+        first_entry = None
         for indices in self._hashes_to_indices.values():
             for index in indices:
                 cached_input_data = self._read_data(index, self.Group.INPUTS)
@@ -370,7 +371,17 @@ class BaseFullCache(BaseCache):
                 ):
                     output_data = self._read_data(index, self.Group.OUTPUTS)
                     jacobian_data = self._read_data(index, self.Group.JACOBIAN)
-                    return CacheEntry(input_data, output_data, jacobian_data)
+                    entry = CacheEntry(input_data, output_data, jacobian_data)
+                    if output_data:
+                        return entry
+
+                    # An entry without output data (e.g. with Jacobian data only)
+                    # must not hide another close entry with output data.
+                    if first_entry is None:
+                        first_entry = entry
+
+        if first_entry is not None:
+            return first_entry
 
         return CacheEntry(input_data, {}, {})
 
